@@ -1,0 +1,197 @@
+//go:build verif
+
+package api
+
+import (
+	"crypto/rand"
+	"crypto/rsa"
+	"crypto/sha256"
+	"crypto/x509"
+	"encoding/base64"
+	"encoding/json"
+	"encoding/pem"
+	"fmt"
+	"net/http"
+	"net/http/httptest"
+	"os"
+	"path/filepath"
+	"strconv"
+	"strings"
+	"testing"
+	"time"
+
+	"github.com/gotid/god/api/httpx"
+	"github.com/gotid/god/api/router"
+	"github.com/gotid/god/internal/verifdrv"
+	"github.com/gotid/god/lib/codec"
+	"github.com/gotid/god/lib/logx"
+)
+
+// C04 through the engine: several signature-protected route groups on ONE engine, each configured
+// (WithSignature) with its own fingerprint -> private key file table, strictness and tolerance.
+// Requests encrypted/signed for one key are sent to every group. RSA keys are generated at run time.
+
+type verifC04Key struct {
+	Fp  string `json:"fp"`
+	Key int    `json:"key"` // index of the RSA key pair
+}
+
+type verifC04Group struct {
+	Strict bool          `json:"strict"`
+	Tol    int64         `json:"tol"` // seconds
+	Keys   []verifC04Key `json:"keys"`
+}
+
+type verifC04Req struct {
+	Group   int    `json:"group"`  // target route group (index in registration order)
+	Fp      string `json:"fp"`     // fingerprint announced
+	EncKey  int    `json:"enckey"` // RSA public key the client encrypts the secret with
+	TsOff   int64  `json:"tsoff"`
+	HmacKey string `json:"hmackey"` // base64
+	Method  string `json:"method"`
+	Query   string `json:"query"`
+	Body    string `json:"body"`
+	Tamper  string `json:"tamper"` // "" | body | query
+}
+
+type verifC04Case struct {
+	Groups []verifC04Group `json:"groups"`
+	Reqs   []verifC04Req   `json:"reqs"`
+}
+
+const verifC04NKeys = 3
+
+type verifC04Pair struct {
+	file string
+	dec  codec.RsaDecryptor
+	enc  codec.RsaEncryptor
+}
+
+func verifC04GenKeys(dir string) ([]verifC04Pair, error) {
+	out := make([]verifC04Pair, verifC04NKeys)
+	for i := range out {
+		k, err := rsa.GenerateKey(rand.Reader, 1024)
+		if err != nil {
+			return nil, err
+		}
+		file := filepath.Join(dir, "key"+strconv.Itoa(i)+".pem")
+		priv := pem.EncodeToMemory(&pem.Block{Type: "RSA PRIVATE KEY", Bytes: x509.MarshalPKCS1PrivateKey(k)})
+		if err := os.WriteFile(file, priv, 0o600); err != nil {
+			return nil, err
+		}
+		pubDer, err := x509.MarshalPKIXPublicKey(&k.PublicKey)
+		if err != nil {
+			return nil, err
+		}
+		pub := pem.EncodeToMemory(&pem.Block{Type: "PUBLIC KEY", Bytes: pubDer})
+		dec, err := codec.NewRsaDecryptor(file)
+		if err != nil {
+			return nil, err
+		}
+		enc, err := codec.NewRsaEncryptor(pub)
+		if err != nil {
+			return nil, err
+		}
+		out[i] = verifC04Pair{file: file, dec: dec, enc: enc}
+	}
+	return out, nil
+}
+
+func verifC04Sha(body string) string { return fmt.Sprintf("%x", sha256.Sum256([]byte(body))) }
+
+type verifC04Opt struct {
+	Ok  bool   `json:"ok"`
+	Val string `json:"val"` // base64 of the bytes
+}
+
+func TestVerifDriverC04(t *testing.T) {
+	logx.Disable()
+	keys, kerr := verifC04GenKeys(t.TempDir())
+	verifdrv.Run(t, func(raw json.RawMessage) any {
+		if kerr != nil {
+			return map[string]any{"error": "keygen: " + kerr.Error()}
+		}
+		var c verifC04Case
+		if err := json.Unmarshal(raw, &c); err != nil {
+			return map[string]any{"error": err.Error()}
+		}
+		ng, rt := newEngine(Config{Timeout: 60000, MaxBytes: 1 << 20}), router.NewRouter()
+		ranGroup := -1
+		for gi, g := range c.Groups {
+			gi := gi
+			pks := make([]PrivateKeyConfig, len(g.Keys))
+			for i, k := range g.Keys {
+				pks[i] = PrivateKeyConfig{Fingerprint: k.Fp, KeyFile: keys[k.Key].file}
+			}
+			h := func(w http.ResponseWriter, r *http.Request) {
+				ranGroup = gi
+				w.WriteHeader(http.StatusOK)
+			}
+			path := "/grp" + strconv.Itoa(gi) + "/res"
+			fr := featuredRoutes{routes: []Route{
+				{Method: http.MethodPost, Path: path, Handler: h}, {Method: http.MethodGet, Path: path, Handler: h},
+				{Method: http.MethodPut, Path: path, Handler: h}, {Method: http.MethodDelete, Path: path, Handler: h}}}
+			WithSignature(SignatureConfig{Strict: g.Strict, Expire: time.Duration(g.Tol) * time.Second, PrivateKeys: pks})(&fr)
+			ng.addRoutes(fr)
+		}
+		if err := ng.bindRoutes(rt); err != nil {
+			return map[string]any{"error": "bindRoutes: " + err.Error()}
+		}
+		rows := []map[string]any{}
+		for _, rq := range c.Reqs {
+			now0 := time.Now().Unix()
+			ts := strconv.FormatInt(now0+rq.TsOff, 10)
+			plain := "key=" + rq.HmacKey + "; time=" + ts + "; type=0"
+			ct, err := keys[rq.EncKey].enc.Encrypt([]byte(plain))
+			if err != nil {
+				return map[string]any{"error": "encrypt: " + err.Error()}
+			}
+			secret := base64.StdEncoding.EncodeToString(ct)
+			path := "/grp" + strconv.Itoa(rq.Group) + "/res"
+			signBody, signQuery := rq.Body, rq.Query
+			switch rq.Tamper {
+			case "body":
+				signBody += "!"
+			case "query":
+				signQuery += "&t=1"
+			}
+			hk, _ := base64.StdEncoding.DecodeString(rq.HmacKey)
+			signContent := strings.Join([]string{ts, rq.Method, path, signQuery, verifC04Sha(signBody)}, "\n")
+			sentContent := strings.Join([]string{ts, rq.Method, path, rq.Query, verifC04Sha(rq.Body)}, "\n")
+			sig := codec.HmacBase64(hk, signContent)
+			header := "fingerprint=" + rq.Fp + "; secret=" + secret + "; signature=" + sig
+			target := "http://localhost" + path
+			if rq.Query != "" {
+				target += "?" + rq.Query
+			}
+			var body *strings.Reader
+			req := httptest.NewRequest(rq.Method, target, nil)
+			if rq.Body != "" {
+				body = strings.NewReader(rq.Body)
+				req = httptest.NewRequest(rq.Method, target, body)
+			}
+			req.Header.Set(httpx.ContentSecurity, header)
+			ranGroup = -1
+			rec := httptest.NewRecorder()
+			panicked, pv := verifdrv.Catch(func() { rt.ServeHTTP(rec, req) })
+			now1 := time.Now().Unix()
+			// tabulation: the secret under every generated private key
+			rsaTab := make([]verifC04Opt, len(keys))
+			for i, k := range keys {
+				if pt, err := k.dec.DecryptBase64(secret); err == nil {
+					rsaTab[i] = verifC04Opt{Ok: true, Val: base64.StdEncoding.EncodeToString(pt)}
+				}
+			}
+			rows = append(rows, map[string]any{
+				"now0": now0, "now1": now1, "ts": ts, "header": header, "secret": secret, "sig": sig, "plain": plain,
+				"method": req.Method, "path": req.URL.Path, "query": req.URL.RawQuery, "clen": req.ContentLength,
+				"rsa": rsaTab, "keybytes": base64.StdEncoding.EncodeToString(hk),
+				"sentcontent": sentContent, "sentmac": codec.HmacBase64(hk, sentContent),
+				"signcontent": signContent, "signmac": codec.HmacBase64(hk, signContent),
+				"sha": verifC04Sha(rq.Body), "status": rec.Code, "ran": ranGroup >= 0, "rangroup": ranGroup,
+				"sighdr": rec.Header().Get("Signature"), "panic": panicked, "panicval": pv,
+			})
+		}
+		return map[string]any{"rows": rows}
+	})
+}
